@@ -125,16 +125,31 @@ def _removed_before_gather(front, idx):
                for i in range(len(order)) for j in range(i + 1, len(order)))
 
 
-def classify(front, shape, idx):
-    """Structural class of an expression on which a front end returned a tensor different from NumPy's."""
+def np_modelled(idx):
+    """python twin of NumpySpec.np_modelled (used for the class key only)"""
+    n1 = sum(1 for c in idx if c[0] == "t1")
+    if n1 == 0:
+        return True
+    if n1 > 1:
+        return False
+    adv = [c[0] != "slice" for c in idx]
+    first, last = adv.index(True), len(adv) - 1 - adv[::-1].index(True)
+    contiguous = all(adv[first:last + 1])
+    t1_pos = [c[0] for c in idx].index("t1")
+    return contiguous or not any(c[0] == "slice" for c in idx[:t1_pos])
+
+
+def classify(front, shape, idx, fixed=False):
+    """Structural class of an expression on which a front end returned a tensor different from NumPy's.
+    fixed: the front end numbers the Gather axes as in the proposed fix, so that class cannot occur."""
     n1 = sum(1 for c in idx if c[0] == "t1")
     if _neg_start_hazard(shape, idx):
         return "negative-step-start-below-minus-dim"
     if n1 >= 2:
         return "two-1d-tensor-indices"
-    if _removed_before_gather(front, idx):
+    if not fixed and _removed_before_gather(front, idx):
         return "gather-axis-after-removed-axis"
-    if n1 == 1 and any(c[0] in ("int", "t0") for c in idx):
+    if n1 == 1 and any(c[0] in ("int", "t0") for c in idx) and not np_modelled(idx):
         return "scalar-and-1d-tensor-index-split-by-slice"
     return "unclassified:" + ",".join(c[0] for c in idx)
 
@@ -212,6 +227,7 @@ def process(ctx, runner, cases, stream, state):
     """Evaluate `cases` = [(shape, idx)], apply the direct oracle, and compare with the Coq models."""
     runner.prepare([idx for _, idx in cases])
     lits, metas = [], []
+    state["streams"][stream] = state["streams"].get(stream, 0) + len(cases)
     for shape, idx in cases:
         r = runner.evaluate(shape, idx)
         ctx.case((stream, len(shape), kinds_of(idx)))
@@ -223,16 +239,15 @@ def process(ctx, runner, cases, stream, state):
                 continue
             if o_np[0] == "ok" and same(o, o_np):
                 continue
-            # the front end returned a tensor and it is not NumPy's result
-            cls = classify(front, shape, idx)
-            ctx.violation(f"C11:{front}:{cls}",
-                          f"{front}: X[{r['src']}] on shape {tuple(shape)} returns a tensor different from NumPy's",
-                          {"front": front, "shape": list(shape), "idx": [list(c) for c in idx], "source": f"X[{r['src']}]",
-                           "tensor_values": r["vals"],
-                           "numpy": o_np[1].tolist() if o_np[0] == "ok" else o_np[1],
-                           "numpy_shape": list(o_np[1].shape) if o_np[0] == "ok" else None,
-                           "got": o[1].tolist(), "got_shape": list(o[1].shape)})
-            state["diff"][(front, cls)] += 1
+            # the front end returned a tensor and it is not NumPy's result: reported after the models ran
+            state["diffs"].append((front, stream, len(metas), shape, idx, r, o))
+        if stream == "documented":
+            for front, o in (("converter", r["graph"]), ("eager", r["eager_user"])):
+                if o[0] != "ok" and o_np[0] == "ok":
+                    ctx.violation(f"C11:{front}:documented-form-fails:X[{r['src']}]",
+                                  f"{front}: the documented form X[{r['src']}] fails on shape {tuple(shape)}: {o[1][:200]}",
+                                  {"front": front, "shape": list(shape), "idx": [list(c) for c in idx], "source": f"X[{r['src']}]",
+                                   "tensor_values": r["vals"], "error": o[1]})
         skel = r["skel"]
         graph_o = r["graph"]
         if r.get("refused") and all(c[0] == "slice" and tuple(c[1:4]) == (None, None, None) for c in idx):
@@ -356,10 +371,14 @@ def gen_axis_exhaustive(rank_pos=((1, 0),), dims=(1, 2, 3, 4)):
                 yield shape, tuple(pre + [("t0", i)])
 
 
-def rand_comp(rng, d, weights=None):
+def rand_index(rng, d):
+    return rng.randint(-d, d - 1) if d > 0 else rng.choice([-1, 0])
+
+
+def rand_comp(rng, d):
     r = rng.random()
     if r < 0.22:
-        return ("int", rng.randint(-d, d - 1))
+        return ("int", rand_index(rng, d))
     if r < 0.30:
         return ("slice", None, None, None)
     if r < 0.66:
@@ -373,8 +392,8 @@ def rand_comp(rng, d, weights=None):
             s = ("t", s)
         return ("slice", b(), b(), s)
     if r < 0.86:
-        return ("t0", rng.randint(-d, d - 1))
-    return ("t1", [rng.randint(-d, d - 1) for _ in range(rng.randint(1, 3))])
+        return ("t0", rand_index(rng, d))
+    return ("t1", [rand_index(rng, d) for _ in range(rng.randint(1, 3))])
 
 
 def gen_random(rng, n, max_rank=3, dims=(1, 2, 3, 4)):
@@ -382,4 +401,205 @@ def gen_random(rng, n, max_rank=3, dims=(1, 2, 3, 4)):
         rank = rng.randint(1, max_rank)
         shape = tuple(rng.choice(dims) for _ in range(rank))
         k = rng.randint(1, rank)
-        yield shape, tuple(rand_comp(rng, shape[j]) for j in range(k))
+        idx = tuple(rand_comp(rng, shape[j]) for j in range(k))
+        if all(c == ("slice", None, None, None) for c in idx) and rng.random() < 0.9:
+            # X[:] / X[:, :] is one form (refused by the converter today); keep only a few of them
+            idx = idx[:-1] + (rand_comp(rng, shape[k - 1]),)
+        yield shape, idx
+
+
+def gen_documented():
+    """The forms listed in the docstring of _translate_subscript_expr (and X[::-1], listed as unsupported there but
+    exercised by the repo's tests), on the 4x3 array of tests/models/getitem.py and on a rank-3 array."""
+    S = lambda a=None, b=None, s=None: ("slice", a, b, s)
+    forms = [
+        (S(), ("int", 1)), (S(None, 2), ("int", 0)), (S(None, 2), S(None, 1)), (S(2, 0, -1),), (S(1),), (S(None, 2),),
+        (S(1, -1),), (S(1, 2),), (("int", -1),), (("int", 0),), (S(None, 0, -1),), (S(None, None, -1),),
+    ]
+    for shape in ((4, 3), (3, 4, 2)):
+        for f in forms:
+            yield shape, f
+        for i in (0, 1, 2, -1, -3):
+            yield shape, (("t0", i),)                                           # A[i]
+        for i in (0, 1):
+            yield shape, (S(("t", i + 1), ("t", i + 2)),)                       # A[i+1:i+2]
+            for j in (1, 2):
+                for k in (0, 1, 2):   # (k = -1 would go through Slice(-1, 0) + Squeeze and fail: an allowed error)
+                    yield shape, (S(("t", i), ("t", i + j)), ("t0", k))         # A[i:i+j, k]
+
+
+def gen_tensor_forms(rng, shapes=((2, 3, 4), (3, 3, 3)), per_form=1):
+    """Every tuple of length <= 3 over {int, ':', slice, rank-0 tensor, rank-1 tensor} with in-range values."""
+    def inst(kind, d):
+        if kind == "int":
+            return ("int", rng.randint(-d, d - 1))
+        if kind == ":":
+            return ("slice", None, None, None)
+        if kind == "slice":
+            return ("slice", rng.choice([None, 0, 1, -1]), rng.choice([None, d, -1, d - 1]), rng.choice([None, 1, -1, 2]))
+        if kind == "t0":
+            return ("t0", rng.randint(-d, d - 1))
+        return ("t1", [rng.randint(-d, d - 1) for _ in range(rng.randint(1, 3))])
+    kinds = ["int", ":", "slice", "t0", "t1"]
+    for shape in shapes:
+        for n in (1, 2, 3):
+            for ks in itertools.product(kinds, repeat=n):
+                if not any(k in ("t0", "t1") for k in ks):
+                    continue
+                for _ in range(per_form):
+                    yield shape, tuple(inst(k, shape[j]) for j, k in enumerate(ks))
+
+
+def gen_pairs(shape=(3, 4)):
+    """All pairs of components from a reduced alphabet on a rank-2 shape (independence of axes)."""
+    def alphabet(d):
+        out = [("int", i) for i in range(-d, d)] + [("slice", None, None, None)]
+        for a, b, s in itertools.product([None, -d - 1, -1, 1, d], [None, -d - 1, -1, 1, d], [None, 2, -1, -2]):
+            out.append(("slice", a, b, s))
+        return out
+    for a in alphabet(shape[0]):
+        for b in alphabet(shape[1]):
+            yield shape, (a, b)
+
+
+def load_corpus():
+    """corpus/C11/cases.json: witnesses of the Coq statements and inputs that once exposed a defect or a mutant."""
+    import json
+    doc = json.load(open(os.path.join(common.VERIF, "corpus", PROPERTY, "cases.json")))
+
+    def comp(c):
+        c = list(c)
+        if c[0] == "slice":
+            return ("slice",) + tuple(tuple(b) if isinstance(b, list) else b for b in c[1:4])
+        if c[0] == "t1":
+            return ("t1", list(c[1]))
+        return (c[0], int(c[1]))
+    return [(tuple(c["shape"]), tuple(comp(x) for x in c["idx"])) for c in doc["cases"]]
+
+
+def report_diffs(ctx, state, bad, variants):
+    """A front end returned a tensor that is not NumPy's: VIOLATION, keyed by its structural class when the model of
+    the code predicts exactly that tensor, as 'unexplained' otherwise."""
+    fx = {"pinned": "false", "gather-axis-fix": "true", "neither": "false"}
+    unexplained = {"converter": {id(m[2]) for _, m in bad[f"graph_agrees {fx[variants['converter']]}"]},
+                   "eager": {id(m[2]) for _, m in bad[f"eager_agrees {fx[variants['eager']]}"]}}
+    seen = {}
+    unknown_reported = set()
+    diffs = sorted(state["diffs"], key=lambda t: (len(t[4]), int(np.prod(t[3])), len(t[3]), str(t[4])))
+    for front, stream, _i, shape, idx, r, o in diffs:
+        cls = classify(front, shape, idx, fixed=variants[front] == "gather-axis-fix")
+        if id(r) in unexplained[front] and not cls.startswith("unclassified"):
+            cls = "unexplained:" + cls
+        key = f"C11:{front}:{cls}"
+        state["diff"][(front, cls.split(":")[0])] += 1
+        if key in seen:
+            continue
+        seen[key] = 1
+        if cls.startswith(("unclassified", "unexplained")):
+            # not one of the recorded classes: report the smallest such input per front end only
+            if front in unknown_reported:
+                continue
+            unknown_reported.add(front)
+        o_np = r["np"]
+        ctx.violation(key,
+                      f"{front}: X[{r['src']}] on shape {tuple(shape)} (tensor-valued parts {r['vals']}) returns "
+                      f"{o[1].tolist()} while NumPy " + (f"returns {o_np[1].tolist()}" if o_np[0] == "ok" else f"raises {o_np[1]}"),
+                      {"front": front, "stream": stream, "shape": list(shape), "idx": [list(c) for c in idx],
+                       "source": f"X[{r['src']}]", "tensor_values": r["vals"],
+                       "numpy": o_np[1].tolist() if o_np[0] == "ok" else o_np[1],
+                       "got": o[1].tolist(), "got_shape": list(o[1].shape)})
+
+
+def run(ctx):
+    import collections
+    ctx.assume("the ONNX operator documents of Slice-13, Squeeze-13 and Gather-13 as transcribed in coq/Index/OnnxSlice.v; their "
+               "agreement with onnxruntime is measured on every case (graph result vs run_conv, eager result vs run_eager)")
+    ctx.assume("Python slice.indices / range and NumPy basic indexing as transcribed in coq/Index/NumpySpec.v; agreement with "
+               "NumPy measured on every case whose NumPy result is a per-axis view (np_modelled)")
+    ctx.assume("dimensions fit int64 (d <= INT64_MAX); the operands the converter emits are int64 constants")
+    ctx.assume("eager mode is run with a recording evaluator that delegates to onnxruntime through "
+               "evaluator._prepare_model_and_inputs_for_eager with single-threaded sessions")
+    ctx.assume("tensor-valued indices of rank >= 2, Ellipsis, None/newaxis, boolean masks and step 0 are outside the property's "
+               "quantifier and are not generated")
+    ctx.check_props()
+    state = {"n": 0, "outcomes": collections.Counter(), "diff": collections.Counter(), "identity_refused": 0,
+             "pending": [], "diffs": [], "streams": {}}
+    runner = Runner(ctx)
+    rng = ctx.rng
+    thorough = ctx.tier == "thorough"
+    try:
+        process(ctx, runner, load_corpus(), "corpus", state)
+        process(ctx, runner, list(gen_documented()), "documented", state)
+        process(ctx, runner, list(gen_axis_exhaustive()), "axis-exhaustive", state)
+        process(ctx, runner, list(gen_tensor_forms(rng, per_form=2 if thorough else 1)), "tensor-forms", state)
+        process(ctx, runner, list(gen_random(rng, 20000 if thorough else 3000)), "random", state)
+        # dimensions of size 0: outside the property's quantifier (dims 1..4) but inside the theorems (d >= 0)
+        process(ctx, runner, list(gen_random(rng, 1500 if thorough else 200, dims=(0, 0, 1, 3))), "zero-dim", state)
+        if thorough:
+            process(ctx, runner, list(gen_axis_exhaustive(rank_pos=((2, 1), (3, 2), (3, 1)))), "axis-exhaustive-inner", state)
+            process(ctx, runner, list(gen_pairs()), "pairs", state)
+    finally:
+        runner.close()
+    n = state["n"]
+    bad = coq_compare(ctx, state)
+    variants = report(ctx, bad, n)
+    report_diffs(ctx, state, bad, variants)
+    # generator health: most cases must be ones where both front ends return NumPy's result
+    oc = state["outcomes"]
+    good = {f: oc[(f, "ok", "np-ok")] - sum(v for (ff, _c), v in state["diff"].items() if ff == f) for f in ("converter", "eager")}
+    floor = 0.5
+    for f in ("converter", "eager"):
+        ok = good[f] >= floor * n
+        ctx.obligation(f"generator health: {f} returns NumPy's tensor on at least {int(floor * 100)}% of the cases ({good[f]}/{n})", ok)
+        if not ok:
+            ctx.tie_broken("harness", "generator-degenerate", f"{f}: only {good[f]} of {n} cases produce a tensor equal to NumPy's")
+    ctx.cover(rule="script functions `return X[idx]` generated per index form, converted and run on onnxruntime (graph), eagerly and in "
+                   "NumPy on X = arange; streams: corpus (witnesses of the Coq statements, past failures), documented forms, exhaustive one-axis sweep of the "
+                   "property's quantifier (start/stop in {None,-d-1..d+1}, step in {None,1,2,-1,-2}, ints -d-1..d as literal and rank-0 "
+                   "tensor, d=1..4), all kind-tuples of length<=3 with a tensor-valued component, seeded random tuples on rank 1-3 "
+                   "(dims 1-4), shapes with 0 dims; thorough adds the one-axis sweep on inner axes, all pairs of a reduced alphabet, "
+                   "13x random volume. distinct non-trivial key = (stream, rank, kind of every component incl. sign / tensor-valued bound)",
+              exhaustive=False,
+              cases_per_stream=state["streams"], forms_converted=len(runner.forms),
+              forms_refused_by_converter=sum(1 for v in runner.forms.values() if v[0] is None),
+              identity_form_refused=state["identity_refused"],
+              outcomes={f"{a}:{b}:{c}": v for (a, b, c), v in sorted(oc.items())},
+              different_tensor_by_class={f"{a}:{b}": v for (a, b), v in sorted(state["diff"].items())},
+              code_variant=variants)
+    if thorough:
+        ctx.coqchk(["Props.C11"])
+
+
+def replay(doc):
+    """./check C11 --replay <file>: re-run the recorded expression on the real code."""
+    import collections
+    rp = doc["replay"]
+    if "idx" not in rp:
+        import json
+        print(json.dumps(doc, indent=1))
+        return 0
+
+    def comp(c):
+        c = list(c)
+        if c[0] == "slice":
+            return ("slice",) + tuple(tuple(b) if isinstance(b, list) else b for b in c[1:4])
+        return tuple(c)
+    idx = tuple(comp(c) for c in rp["idx"])
+    shape = tuple(rp["shape"])
+    ctx = common.Ctx(PROPERTY, "quick", 0)
+    runner = Runner(ctx)
+    try:
+        runner.prepare([idx])
+        r = runner.evaluate(shape, idx)
+    finally:
+        runner.close()
+        shutil.rmtree(ctx.scratch, ignore_errors=True)
+    show = lambda o: o[1].tolist() if o[0] == "ok" else "ERROR " + o[1]
+    print(f"X[{r['src']}]  shape {shape}  tensor-valued parts {r['vals']}")
+    print("  numpy :", show(r["np"]))
+    print("  graph :", show(r["graph"]), " emitted:", r["skel"])
+    print("  eager :", show(r["eager_user"]), " op calls:", r["eskel"])
+    bad = [f for f, o in (("converter", r["graph"]), ("eager", r["eager_user"]))
+           if o[0] == "ok" and not (r["np"][0] == "ok" and same(o, r["np"]))]
+    print("  different tensor returned by:", bad or "nobody")
+    return 1 if bad else 0
